@@ -4,7 +4,7 @@
 cd /verif
 out=seeded/DETECTION.md
 tmp=$(mktemp -d)
-ls seeded | grep -E '^C[0-9]+-' | xargs -P 3 -I{} sh -c './tools_seed_try.sh {} > '$tmp'/{}.log 2>&1'
+ls seeded | grep -E '^C[0-9]+-' | xargs -P 4 -I{} sh -c './tools_seed_try.sh {} > '$tmp'/{}.log 2>&1'
 {
 echo "# Detection of the seeded changes by the current checks"
 echo
